@@ -21,6 +21,7 @@ class Acc(object):
     def __init__(self):
         self.counts = Counter()
         self.violations = []
+        self.vcount = Counter()
         self.nviol = 0
         self.samples = {}
         self.reached = 0
@@ -35,7 +36,11 @@ class Acc(object):
         v = j.get("violation")
         if v is not None:
             self.nviol += 1
-            if len(self.violations) < 40:
+            key = j.get("vkey") or str(v.get("what"))[:80]
+            self.vcount[key] += 1
+            if self.vcount[key] <= 3 and len(self.violations) < 3000:
+                v = dict(v)
+                v["_vkey"] = key
                 self.violations.append(v)
         s = j.get("sample")
         if s is not None:
@@ -46,9 +51,12 @@ class Acc(object):
     def merge(self, o):
         self.counts.update(o.counts)
         self.nviol += o.nviol
+        have = Counter(v.get("_vkey") for v in self.violations)
         for v in o.violations:
-            if len(self.violations) < 200:
+            if have[v.get("_vkey")] < 3 and len(self.violations) < 3000:
                 self.violations.append(v)
+                have[v.get("_vkey")] += 1
+        self.vcount.update(o.vcount)
         for k, lst in o.samples.items():
             mine = self.samples.setdefault(k, [])
             for s in lst:
